@@ -120,6 +120,12 @@ func nativeRun(propID string, pkgDir string, pkgName string, harnessNames []stri
 		ov["Replace"][v] = r
 	}
 	ov["Replace"][filepath.Join(repoDir, pkgDir, "zz_verif_replay_test.go")] = testFile
+	// replay environment: utility.ntpOffset(true) loops until an NTP server answers; the sandbox
+	// has no network, so the natively compiled replay uses a copy of ntp.go whose ntpOffset
+	// returns 0 (the clock source is not the subject of any claimed property)
+	if patched := patchNtp(scratch); patched != "" {
+		ov["Replace"][filepath.Join(repoDir, "src/utility/ntp.go")] = patched
+	}
 	ovb, _ := json.Marshal(ov)
 	ovFile := filepath.Join(scratch, "overlay.json")
 	os.WriteFile(ovFile, ovb, 0o644)
@@ -173,6 +179,43 @@ func nativeRun(propID string, pkgDir string, pkgName string, harnessNames []stri
 		}
 	}
 	return res, nil
+}
+
+func patchNtp(scratch string) string {
+	src, err := os.ReadFile(filepath.Join(repoDir, "src/utility/ntp.go"))
+	if err != nil {
+		return ""
+	}
+	text := string(src)
+	head := "func ntpOffset(ensure bool) time.Duration {"
+	i := strings.Index(text, head)
+	if i < 0 {
+		return ""
+	}
+	// matching closing brace
+	depth := 0
+	j := i + len(head) - 1
+	for ; j < len(text); j++ {
+		if text[j] == '{' {
+			depth++
+		} else if text[j] == '}' {
+			depth--
+			if depth == 0 {
+				break
+			}
+		}
+	}
+	if j >= len(text) {
+		return ""
+	}
+	out := text[:i] + head + "\n\treturn 0 // verif replay: no network in the sandbox\n}" + text[j+1:]
+	// keep helper functions referenced so that the file still compiles
+	out += "\nvar _ = queryNTP\n"
+	f := filepath.Join(scratch, "ntp_patched.go")
+	if os.WriteFile(f, []byte(out), 0o644) != nil {
+		return ""
+	}
+	return f
 }
 
 func tail(s string, n int) string {
